@@ -9,7 +9,7 @@ def gen_value(rng, ty, null_p=0.25, small=True):
     if ty == "f64":
         return ("q", Fraction(rng.choice([0, 1, 3, 5, -3, 10]), rng.choice([1, 2, 4])))
     if ty == "str":
-        return rng.choice(["a", "b", "ab", "", "é", "B", "a%"])
+        return rng.choice(["a", "b", "ab", "", "é", "B", "a%", "aba"])
     if ty == "date":
         return ("d", rng.choice([0, 1, 365, 10957, -1]))
     if ty == "bool":
